@@ -25,5 +25,18 @@ CHECKS = {
     },
 }
 
+CHECKS["C03"] = {
+    "engine": "E1-stateful-explorer",
+    "category": "model_checking",
+    "text": "Explicit-state BFS over the raw states (size, block count, every block including the bits beyond size()) of real xdynamic_bitset and xdynamic_bitset_view objects: "
+            "every operation instance of the alphabet is applied to every reachable state and the result compared with std::vector<bool>; every new state is interrogated through all "
+            "queries the statement lists plus the unused-bit invariant and the caller-memory guards of views. uint8_t (S=10; thorough also S=17 and uint16_t S=17) runs to fixpoint, i.e. all "
+            "reachable states of the alphabet; uint32_t/uint64_t are depth-bounded. That is the right level because the property is about state left behind by one call meeting the next call.",
+    "design_ref": "DESIGN.md section 3, C03",
+    "note": "Trusted: std::vector<bool>, the harness' shift/zero-fill model. Bounds: max size S per instantiation, operand gallery for binary operators (all patterns in thorough for S=10), "
+            "boundary bit indices and depth 3/4 for 32/64-bit blocks. Calls whose precondition the statement does not cover (pop_back on empty, pos>=size, operands of different size, moved-from use) are not in the alphabet.",
+    "technique": "explicit-state model checking of the implementation (BFS with state hashing over real objects, reference-model oracle on every transition)",
+}
+
 NOT_YET = "check not built yet in this round; design in DESIGN.md section 3"
 NOT_APPLICABLE = {}
